@@ -13,10 +13,10 @@ NOVER={'linsertBeforeUnlocked','linsertAfterUnlocked'}
 EXTRA={
  'linsert': ['//@ loop "for pivotItem = list.head" invariant [C03] pivot: pivotItem != nil ==> (pivotItem.owner == list && 0 <= pivotItem.idx && pivotItem.idx < list.count && list.seq[pivotItem.idx] == pivotItem)',
              '//@ requires free bounded: true'],
- 'lpush': ['//@ loopinv [C03] bounded: list != nil ==> list.count < (1<<56) + ri1', '//@ requires free sizes: len(values) < (1<<40)'],
- 'rpush': ['//@ loopinv [C03] bounded: list != nil ==> list.count < (1<<56) + ri1', '//@ requires free sizes: len(values) < (1<<40)'],
- 'lpushx': ['//@ loopinv [C03] bounded: list != nil ==> list.count < (1<<56) + ri1', '//@ requires free sizes: len(values) < (1<<40)'],
- 'rpushx': ['//@ loopinv [C03] bounded: list != nil ==> list.count < (1<<56) + ri1', '//@ requires free sizes: len(values) < (1<<40)'],
+ 'lpush': ['//@ ensures [C11] wakes: mutated ==> gWakeRequested == len(values) && gWakeKey == keyName', '//@ loopinv [C03] bounded: list != nil ==> list.count < (1<<56) + ri1', '//@ requires free sizes: len(values) < (1<<40)'],
+ 'rpush': ['//@ ensures [C11] wakes: mutated ==> gWakeRequested == len(values) && gWakeKey == keyName', '//@ loopinv [C03] bounded: list != nil ==> list.count < (1<<56) + ri1', '//@ requires free sizes: len(values) < (1<<40)'],
+ 'lpushx': ['//@ ensures [C11] wakes: mutated ==> gWakeRequested == len(values) && gWakeKey == keyName', '//@ loopinv [C03] bounded: list != nil ==> list.count < (1<<56) + ri1', '//@ requires free sizes: len(values) < (1<<40)'],
+ 'rpushx': ['//@ ensures [C11] wakes: mutated ==> gWakeRequested == len(values) && gWakeKey == keyName', '//@ loopinv [C03] bounded: list != nil ==> list.count < (1<<56) + ri1', '//@ requires free sizes: len(values) < (1<<40)'],
  'getListUnlocked': ['//@ ensures [C03] listwf: list != nil ==> listWF(list)', '//@ ensures [C03] listsize: list != nil ==> list.count < (1<<56)', '//@ use storeKey.getList.listwf'],
  'ensureListUnlocked': ['//@ ensures [C03] listwf: list != nil ==> listWF(list)', '//@ ensures [C03] listsize: list != nil ==> list.count < (1<<56)', '//@ ensures [C03] nonnil: err == nil ==> list != nil', '//@ use storeKey.getList.listwf dataStoreCommand.getListUnlocked.listwf'],
  'newListUnlocked': ['//@ ensures [C03] listwf: list != nil && listWF(list)', '//@ use storeKey.getList.listwf dataStoreCommand.getListUnlocked.listwf'],
@@ -59,16 +59,16 @@ EXTRA={
             '//@ ghostafter "m2 := sk2.getSet()" : if m2 != nil : gSnapDom = d.vdom',
             '//@ ghostafter "m2 := sk2.getSet()" : if m2 != nil : gAccPrev = gAcc',
             '//@ ghostafter "m2 := sk2.getSet()" : if m2 != nil : gAcc = mapunion(gAcc, m2.vdom)',
-            '//@ loop "for _, keyName := range keyNames" invariant [C05] fresh: d != nil && m != nil && d.scratch && !m.scratch && !wrongType',
+            '//@ loop "for _, keyName := range keyNames" invariant [C05] fresh: d != nil && m != nil && d.scratch && d != m && !wrongType',
             '//@ loop "for _, keyName := range keyNames" invariant [C05] operands: forall r *redisDict :: asref(r) < old(alloc()) ==> r.vdom == old(r.vdom) && r.vval == old(r.vval) && r.count == old(r.count)',
             '//@ loop "for _, keyName := range keyNames" invariant [C05] result: allstr(q, d.vdom[q] == (m.vdom[q] && !gAcc[q]))',
-            '//@ loop "for i := m2.createIterator(); i.next();" invariant [C05] fresh: d != nil && m != nil && m2 != nil && d.scratch && !m.scratch && !m2.scratch && i != nil && i.dict == m2 && !wrongType',
+            '//@ loop "for i := m2.createIterator(); i.next();" invariant [C05] fresh: d != nil && m != nil && m2 != nil && d.scratch && d != m && !m2.scratch && i != nil && i.dict == m2 && !wrongType',
             '//@ loop "for i := m2.createIterator(); i.next();" invariant [C05] operands: forall r *redisDict :: asref(r) < old(alloc()) ==> r.vdom == old(r.vdom) && r.vval == old(r.vval) && r.count == old(r.count)',
             '//@ loop "for i := m2.createIterator(); i.next();" invariant [C05] step: allstr(q, d.vdom[q] == (gSnapDom[q] && !(m2.vdom[q] && dslot(sip(q), len(m2.buckets)) < int(i.bucketNumber))))',
             '//@ loop "for i := m2.createIterator(); i.next();" invariant [C05] snap: allstr(q, gSnapDom[q] == (m.vdom[q] && !gAccPrev[q])) && allstr(q, gAcc[q] == (gAccPrev[q] || m2.vdom[q]))',
             '//@ ensures [C05] operands: forall r *redisDict :: asref(r) < old(alloc()) ==> r.vdom == old(r.vdom) && r.vval == old(r.vval) && r.count == old(r.count)',
-            '//@ ensures internal [C05] difference: !wrongType && objExists ==> allstr(q, d.vdom[q] == (m.vdom[q] && !gAcc[q]))',
-            '//@ ensures internal [C05] missing.first: !wrongType && !objExists ==> allstr(q, !d.vdom[q])',
+            '//@ ensures internal [C05] difference: !wrongType ==> allstr(q, d.vdom[q] == (m.vdom[q] && !gAcc[q]))',
+            '//@ ensures internal [C05] missing.first: !wrongType && !objExists ==> allstr(q, !d.vdom[q] && !m.vdom[q])',
             '//@ use newRedisDict.empty',
             '//@ modifies ghost.gAcc ghost.gAccPrev ghost.gSnapDom',
             '//@ use redisDictIter.next.view.skipped redisDictIter.next.view.done redisDictIter.next.view.unique',
@@ -127,10 +127,10 @@ EXTRA={
             '//@ loop "for _, member := range members" invariant [C05] others: allstr(q, !m.vdom[q] || old(m.vdom[q]))',
             '//@ ensures internal [C05] gone: objExists && m != nil ==> allsel(i, 0, len(members), !m.vdom[members[i]])',
             '//@ ensures internal [C05] emptied: objExists && m != nil && removals > 0 && m.count == 0 ==> !dsc.ds.data.vdom[keyName]'],
- 'setMove': ['//@ ensures internal [C05] same: objExists && ss != nil && exists && source == destination ==> output.data == respInt(1) && !mutated',
-            '//@ ensures internal [C05] moved: objExists && ss != nil && exists && source != destination && !wrongType ==> !ss.vdom[memberName] && output.data == respInt(1)',
-            '//@ ensures internal [C05] emptied: objExists && ss != nil && exists && source != destination && !wrongType && ss.count == 0 ==> !dsc.ds.data.vdom[source]',
-            '//@ ensures internal [C05] absent: objExists && ss != nil && !exists ==> output.data == respInt(0) && !mutated'],
+ 'setMove': ['//@ ensures internal [C05] same: output.data != wrongTypeError && objExists && ss != nil && exists && source == destination ==> output.data == respInt(1) && !mutated',
+            '//@ ensures internal [C05] moved: output.data != wrongTypeError && objExists && ss != nil && exists && source != destination && !wrongType ==> !ss.vdom[memberName] && output.data == respInt(1)',
+            '//@ ensures internal [C05] emptied: output.data != wrongTypeError && objExists && ss != nil && exists && source != destination && !wrongType && ss.count == 0 ==> !dsc.ds.data.vdom[source]',
+            '//@ ensures internal [C05] absent: output.data != wrongTypeError && objExists && ss != nil && !exists ==> output.data == respInt(0) && !mutated'],
  'setOperationStore': ['//@ callback op oneof diffWorker unionWorker intersectWorker',
             '//@ ensures internal [C05] empty.deletes: !wrongType && d.count == 0 ==> !dsc.ds.data.vdom[destination] && output.data == respInt(0)',
             '//@ ensures internal [C05] stored: !wrongType && d.count != 0 ==> dsc.ds.data.vdom[destination] && istype(dsc.ds.data.vval[destination], *storeKey) && unbox(dsc.ds.data.vval[destination], *storeKey).payload == d && flagHasOne(unbox(dsc.ds.data.vval[destination], *storeKey).flags, FLAG_KEY_TYPE_SET)'],
